@@ -675,22 +675,34 @@ class Verifier(Engine):
         return res
 
     def havoc_field(self, st, fld):
-        kind = FIELDS.get(fld)
+        # every heap map that stores an attribute of this name: the shared one and the class-qualified ones (a plain name in
+        # `modifies` means the attribute of any object)
         names = []
         if fld.startswith('$'):
-            names = [fld]
-        elif kind == 'pos':
-            names = [fld + '.0', fld + '.1']
-        elif kind and kind.startswith('opt:'):
-            names = [fld, fld + '.isnone']
+            names = [(fld, None)]
         else:
-            names = [fld]
-        for n in names:
+            stores = [(fld, FIELDS.get(fld))] if fld in FIELDS else []
+            stores += [('%s.%s' % (k[0], fld), v) for k, v in FIELDS.items()
+                       if isinstance(k, tuple) and k[1] == fld and v != FIELDS.get(fld)]
+            if not stores:
+                stores = [(fld, None)]
+            for nm, kind in stores:
+                if kind == 'pos':
+                    names += [(nm + '.0', 'int'), (nm + '.1', 'int')]
+                elif kind and kind.startswith('opt:'):
+                    names += [(nm, kind[4:]), (nm + '.isnone', 'bool')]
+                else:
+                    names.append((nm, kind))
+        for n, kind in names:
             old = st.heap.get(n)
             if old is None:
                 old = self.init_heap.get(n)
             if old is None and n in GHOST_ARRAYS:
                 old = st.arr(n, GHOST_ARRAYS[n])      # a ghost array not read yet: later reads must see the havocked one
+            if old is None and kind is not None:
+                # not read on this path yet: it has to exist now, or a later read would see the entry state
+                rng = B if kind == 'bool' else (z3.StringSort() if kind == 'str' else I)
+                old = st.arr(n, z3.ArraySort(I, rng))
             if old is None:
                 continue
             new_ = z3.Const(fresh_name('H_' + n), old.sort())
